@@ -34,6 +34,9 @@ def load():
 def apply_edit(root, m):
     edits = m.get("edits") or [m]
     for e in edits:
+        if e.get("mv"):
+            os.rename(os.path.join(root, e["mv"][0]), os.path.join(root, e["mv"][1]))
+            continue
         p = os.path.join(root, e["file"])
         with open(p) as fh:
             s = fh.read()
